@@ -9,7 +9,7 @@ conjunction over all entries. A new map iteration in the source breaks this obli
 theorem map_iterations_audited : mapIterSites.all MapIterFact.audited = true := by decide
 
 /-- the table is not empty (the translator found the known sites) -/
-theorem map_iterations_found : 8 ≤ mapIterSites.length := by decide
+theorem map_iterations_found : 3 ≤ mapIterSites.length := by decide
 
 /-- consequence used by C02: a site whose reason is "sorted before use" sits in a function that sorts -/
 theorem sorted_sites_sort (f : MapIterFact) (hf : f ∈ mapIterSites) : f.audited = true :=
